@@ -44,7 +44,8 @@ Record h5gen := {
   g_builder_strings : list (string * list (string * bool));
   g_refusals : list (string * bool); g_delay_units : list (string * bool); g_select : list selprobe;
   g_zero : list (string * string * string * bool);
-  g_precision : list (string * string * string * bool); g_merge : list (string * bool) }.
+  g_precision : list (string * string * string * bool); g_merge : list (string * bool);
+  g_strings : list (string * bool) }.
 
 (* ------------------------------------------------------------------ small boolean equalities *)
 Definition cst_eqb (a b : cst) : bool :=
@@ -241,6 +242,20 @@ Definition table_gattrs_ok (g : h5gen) (wt : wtable) : bool :=
   | Some r => gattrs_ok (wt_kind wt) (wt_gattrs wt) (rt_gattrs r) (strings_of g (wt_kind wt))
   | None => false end.
 
+(* boundary strings: get_str_attribute_group hands back exactly what is stored ("" , " ", "0", "None", "False", with ':' / '/'),
+   and the empty string survives writer, parser and builder in every slot where it is a legal value.
+   NOT required (known findings C05:notes-empty-read-as-absent, C05:network.notes-empty-read-as-absent: NetworkBuilder turns
+   empty notes into absent notes): builder:document.notes, builder:network.notes. *)
+Definition strings_required : list string :=
+  ["getstr:''"; "getstr:' '"; "getstr:'0'"; "getstr:'None'"; "getstr:'False'"; "getstr:'a:b'"; "getstr:'a/b'";
+   "writer:document.notes"; "writer:network.notes"; "writer:population.property.value";
+   "reader:document.notes"; "reader:network.notes"; "reader:population.property.value";
+   "builder:population.property.value"; "optimized:population.property.value"].
+Definition strings_ok (g : h5gen) : bool :=
+  forallb (fun n => match assoc n (g_strings g) with Some b => b | None => false end) strings_required.
+Definition failing_strings (g : h5gen) : list string :=
+  filter (fun n => negb (match assoc n (g_strings g) with Some b => b | None => false end)) strings_required.
+
 Definition groups_ok (g : h5gen) : bool :=
   forallb (table_gattrs_ok g) (g_writer g)
   && gattrs_ok "sized_population" (g_sized_pop_w g) (g_sized_pop_r g) (strings_of g "population")
@@ -248,7 +263,8 @@ Definition groups_ok (g : h5gen) : bool :=
   && gattrs_ok "network" (g_net_w g) (g_net_r g) (strings_of g "network")
   && g_prop_prefix g
   && match assoc "props" (strings_of g "population") with Some b => b | None => false end
-  && existsb (fun wt => String.eqb (wt_kind wt) "population" && existsb (fun p => gsrc_eqb (snd p) GProp) (wt_gattrs wt)) (g_writer g).
+  && existsb (fun wt => String.eqb (wt_kind wt) "population" && existsb (fun p => gsrc_eqb (snd p) GProp) (wt_gattrs wt)) (g_writer g)
+  && strings_ok g.
 
 (* an absent (None) string attribute must be read back as absent *)
 Definition none_ok (g : h5gen) : bool :=
